@@ -10,7 +10,7 @@ ORDINARY = ["interface", "GigabitEthernet0/1", "description", "uplink", "to", "c
             "lab_sw-01", "set", "system", "ntp", "server", "logging", "host", "snmp", "location", "Building(7)", "rack#4", "speed", "auto"]
 V4_OK = ["1.2.3.4", "10.0.0.1", "192.168.1.77", "172.16.5.200", "8.8.8.8", "001.021.201.012", "1.2.3.040", "0.0.0.1", "223.255.255.254", "100.64.0.9",
          "203.0.113.77", "0255.000255.1.0001", "11.22.33.44/24", "10.1.1.0/030", "11.12.13.14/8"]
-V4_MASK = ["255.255.255.0", "0.0.0.255", "255.255.255.255", "0.0.0.0", "255.254.0.0", "0.0.63.255", "128.0.0.0"]
+V4_MASK = ["255.255.255.0", "0.0.0.255", "255.255.255.255", "0.0.0.0", "255.254.0.0", "0.0.63.255", "128.0.0.0", "255.255.255.000", "000.000.000.255", "255.255.0254.0", "000.0.0.0"]
 V4_NEAR = ["1.2.3", "1.2.3.4.5", "1.256.3.4", "x1.2.3.4", "1.2.3.4x", "1.2.3.256", "1..2.3", "1.2.3.4.", ".1.2.3.4", "1.2.3.2555", "v1.2.3.4-b", "a.b.c.d", "1.2.3.4_5", "1.2.3.٣"]
 V6_OK = ["2001:db8::1", "fe80::1", "::1", "::", "2001:0db8:0000:0000:0000:ff00:0042:8329", "2001:DB8::FFFF", "1:2:3:4:5:6:7:8", "1::", "1:2::8", "ff02::1:ff00:1234",
          "2001:db8::1/64", "::/0", "fc00::abcd/7", "2607:f8b0:4005:805::200e", "0:0:0:0:0:0:0:1", "1::1"]
